@@ -12,7 +12,10 @@
 (***************************************************************************)
 EXTENDS Integers, Sequences, FiniteSets, TLC, Json
 
-Commands  == {"flatten", "expand", "mixin", "genspec", "init"}
+\* commands and their option variants: flatten with full flattening / removal of unused definitions,
+\* mixin with the document as primary or as mixed-in (secondary) spec, with and without
+\* --keep-spec-order (which re-reads every mixed-in spec to record the order of its properties)
+Commands  == {"flatten", "flatten_full", "flatten_unused", "expand", "mixin", "mixin_keeporder", "mixin_sec", "mixin_sec_keeporder", "genspec", "init"}
 Formats   == {"json", "yaml"}
 \* strings that a YAML reader may take for something else, and numbers at the edge of float64
 StringClasses == {"int_like", "float_like", "exp_like", "hex_like", "octal_like", "bool_true", "bool_True", "bool_yes", "bool_no",
